@@ -7,7 +7,9 @@ package main
 //            Whoever dialled a connection has long been served when it is killed, so every exchange
 //            hit by a kill is on a connection reused from the pool, the server is healthy, and the
 //            retry lands on a connection that lives for another 40+ queries: every exchange must
-//            succeed, in time.
+//            succeed, in time. (Judged: exchanges that fail although the transport retried them - the
+//            error lists several attempts. A single-attempt failure means the transport took the
+//            connection for freshly dialled, which a starved caller can legitimately run into.)
 // fallback - the TCP leg of a UDP upstream (UDP reply with TC=1) against a TCP side that stays
 //            silent, sends garbage, closes or answers too late, with caller deadlines of 0.3-0.9 s:
 //            the exchange returns by its deadline plus slack.
@@ -28,6 +30,7 @@ import (
 )
 
 type c14ChurnRec struct {
+	Attempts int    `json:"attempts_reported_in_the_error"`
 	Name     string `json:"qname"`
 	TookMs   int64  `json:"took_ms"`
 	ErrClass string `json:"result"`
@@ -39,7 +42,8 @@ type c14ChurnRun struct {
 	Exchanges int           `json:"exchanges"`
 	Kills     int           `json:"connections_killed_by_server"`
 	Accepts   int           `json:"connections_accepted"`
-	Failed    []c14ChurnRec `json:"failed"`
+	Failed    []c14ChurnRec `json:"failed_after_retries"`
+	FreshFail int           `json:"failed_without_retry"`
 	Late      []c14ChurnRec `json:"late"`
 	Setup     string        `json:"setup_error,omitempty"`
 }
@@ -99,11 +103,22 @@ func c14ChurnOnce(seed int64, tname string, workers, per int) *c14ChurnRun {
 		if m != nil {
 			dnsmsg.ReleaseMsg(m)
 		}
-		rec := c14ChurnRec{Name: name, TookMs: took.Milliseconds(), ErrClass: upErrClass(err), Err: upShort(err)}
+		rec := c14ChurnRec{Name: name, TookMs: took.Milliseconds(), ErrClass: upErrClass(err), Err: upShort(err), Attempts: 1}
+		if j, ok := err.(interface{ Unwrap() []error }); ok {
+			rec.Attempts = len(j.Unwrap())
+		}
 		mu.Lock()
 		run.Exchanges++
-		if err != nil {
+		switch {
+		case err == nil:
+		case rec.Attempts >= 2:
 			run.Failed = append(run.Failed, rec)
+		default:
+			// one attempt, no retry: the transport regarded the connection as freshly dialled for this
+			// exchange (every exchange that waited for the same dial does). A starved caller can write
+			// its first query after its fellow callers have worn the connection out; reporting that
+			// failure instead of retrying is what the property allows.
+			run.FreshFail++
 		}
 		if took > deadline+c14Slack {
 			run.Late = append(run.Late, rec)
@@ -157,6 +172,7 @@ func c14Churn(c *Ctx) {
 		c.Ev.Count("churn_exchanges:"+tname, int64(run.Exchanges))
 		c.Ev.Count("churn_connections_killed_by_server:"+tname, int64(run.Kills))
 		c.Ev.Count("churn_connections_accepted:"+tname, int64(run.Accepts))
+		c.Ev.Count("churn_failures_without_retry_not_judged:"+tname, int64(run.FreshFail))
 		if run.Kills == 0 {
 			c.Inconclusive("churn " + tname + ": the server never killed a connection")
 			continue
@@ -171,7 +187,7 @@ func c14Churn(c *Ctx) {
 		switch {
 		case len(run.Failed) > 0 && len(again.Failed) > 0:
 			f := run.Failed[0]
-			c.Violation("churn:failed-on-reused-connection:"+tname, fmt.Sprintf("%s: %d of %d exchanges failed (first: %q after %d ms: %s %s) while the server only ever closed connections that had served 40+ queries (%d kills) and stayed reachable; every exchange hit by a kill was on a reused connection and must be retried; a second run on a fresh server failed %d of %d",
+			c.Violation("churn:failed-on-reused-connection:"+tname, fmt.Sprintf("%s: %d of %d exchanges failed after the transport had retried them (first: %q after %d ms: %s %s) while the server only ever closed connections that had served 40+ queries (%d kills) and stayed reachable; every exchange hit by a kill was on a reused connection and must be retried; a second run on a fresh server failed %d of %d",
 				tname, len(run.Failed), run.Exchanges, f.Name, f.TookMs, f.ErrClass, f.Err, run.Kills, len(again.Failed), again.Exchanges), map[string]any{"run": run, "confirmation": again})
 		case len(run.Late) > 0 && len(again.Late) > 0:
 			f := run.Late[0]
